@@ -62,8 +62,10 @@ class InstanceManager(Generic[M]):
         # prevent it from running its deinitialization code:
         self._instance._rc = 1
 
-        self._cx.close()
-        self._instance = None
+        try:
+            self._cx.close()
+        finally:
+            self._instance = None
 
     @contextlib.contextmanager
     def request(self, exclusive: bool = False, keep_alive: bool = False) -> Iterator[M]:
@@ -439,6 +441,7 @@ class Context(typing.ContextManager):
         """
         keep_alive_orig = self._keep_alive
         reset_on_error_orig = self._reset_on_error_default
+        first_error: Optional[BaseException] = None
         try:
             if keep_alive is not None:
                 self._keep_alive = keep_alive
@@ -457,7 +460,15 @@ class Context(typing.ContextManager):
                 for cls in reversed(self._teardown_order):
                     inst = self._instances[cls]
                     if inst.is_alive() and not inst.has_users():
-                        inst.teardown()
+                        # A failing teardown must not keep the remaining
+                        # instances alive.
+                        try:
+                            inst.teardown()
+                        except BaseException as e:
+                            if first_error is None:
+                                first_error = e
+            if first_error is not None:
+                raise first_error
 
     def is_active(self) -> bool:
         """
@@ -493,6 +504,7 @@ class Context(typing.ContextManager):
         return self
 
     def __exit__(self, *args: Any) -> None:
+        first_error: Optional[BaseException] = None
         try:
             if self._open_contexts == 1:
                 for cls in reversed(self._teardown_order):
@@ -501,8 +513,13 @@ class Context(typing.ContextManager):
                         if self._keep_alive:
                             # If we kept instances alive, now is a good time to
                             # finally tear them down; there won't be any users
-                            # after this point...
-                            inst.teardown()
+                            # after this point...  A failing teardown must not
+                            # keep the remaining instances alive.
+                            try:
+                                inst.teardown()
+                            except BaseException as e:
+                                if first_error is None:
+                                    first_error = e
                         else:
                             tbot.log.warning(
                                 f"Found dangling {cls!r} instance in this context"
@@ -516,6 +533,8 @@ class Context(typing.ContextManager):
                             + "Please report this to https://github.com/rahix/tbot/issues!"
                         )
             self._open_contexts -= 1
+        if first_error is not None:
+            raise first_error
 
 
 T = TypeVar("T")
